@@ -637,6 +637,11 @@ func (s *BgpServer) prePolicyFilterpath(peer *peer, path, old *table.Path) (*tab
 		}
 		if table.CanImportToVrf(vrf, path) {
 			path = path.ToLocal()
+		} else if !path.IsWithdraw && old != nil && table.CanImportToVrf(vrf, old) {
+			// the new version of the route no longer carries a target the VRF
+			// imports: the version its peers were sent is taken back
+			path = old.Clone(true).ToLocal()
+			old = nil
 		} else {
 			return nil, nil, true
 		}
